@@ -92,7 +92,9 @@ func c09NewWorld(t *testing.T, backend string) (*c09World, error) {
 func c09LifecycleRunning() int {
 	n := 0
 	for _, g := range vk.Goroutines() {
-		if strings.Contains(g.Stack, ").runBridgeLifecycle") {
+		// a goroutine that was created by `go s.runBridgeLifecycle(...)` but has not been
+		// scheduled yet shows up as "startSourceBridge.gowrapN", not under its target's name
+		if strings.Contains(g.Stack, ").runBridgeLifecycle") || strings.Contains(g.Stack, ").startSourceBridge.gowrap") {
 			n++
 		}
 	}
@@ -183,6 +185,16 @@ func TestVerifC09Lifecycle(t *testing.T) {
 		c09LifecycleCase(t, run, backend, ending, tid, c09Hosts[hi], c09LPorts[pi], detail)
 		run.Eval(1)
 		run.Distinct(fmt.Sprintf("%s|%s|h%d|p%d", backend, ending, hi, pi))
+	}
+	// a watchdog or a broken setup makes the run inconclusive, never a violation
+	var inconclusive int64
+	for _, k := range []string{"watchdog_previous_lifecycle", "watchdog_lifecycle_end", "watchdog_roundtrip", "world_setup_failed",
+		"mapping_setup_failed", "source_login_failed", "source_open_failed", "target_login_failed", "target_open_failed"} {
+		inconclusive += run.Counter(k)
+	}
+	if inconclusive > 0 {
+		run.Count("inconclusive_cases", inconclusive)
+		run.Floor("all_cases_conclusive", 1) // never reached
 	}
 	for _, b := range backends {
 		run.Floor("waiting_resolved_from_other_node|"+b, int64(n/4))
